@@ -103,7 +103,9 @@ def make_query(q):
     hist = None
     if q["history"] is not None:
         ids = [h[0] for h in q["history"]]
-        rs = np.array([float(fparse(h[1])) for h in q["history"]], dtype=np.float32)
+        # the rating column of a history is single precision unless the query says otherwise (`hist_dtype`)
+        rs = np.array([float(fparse(h[1])) for h in q["history"]],
+                      dtype=np.float64 if q.get("hist_dtype") == "f64" else np.float32)
         hist = ItemList(item_ids=np.array(ids, dtype=np.int64), rating=rs)
     return RecQuery(user_id=q["user"], user_items=hist)
 
